@@ -199,6 +199,11 @@ fn write_chunk(input: &[u8], input_used: &mut usize, w: &mut Writer, max_chunk: 
         to_write -= 1;
     }
 
+    // No room for any data. A zero sized chunk would end the body.
+    if to_write == 0 {
+        return false;
+    }
+
     let success = w.try_write(|w| {
         // chunk length
         write!(w, "{:0x?}\r\n", to_write)?;
